@@ -188,10 +188,8 @@ def lattice_units(ctype, opts, comp_blk):
                  "distanceXY"):
         return [whole(g) for _, g in groups if g.dummy is None]
     if ctype == "distanceZ":
-        if opts.get("axis") == "ref2":
-            # documented origin r_m = (r1 + r2)/2 is not a minimum-image construct: ref and ref2 move together
-            d = dict(groups)
-            return [whole(d["main"]), whole(d["ref"]) + whole(d["ref2"])]
+        # (with ref2 the origin is the midpoint of ref and of the image of ref2 closest to it: every group may be supplied in
+        # any periodic image)
         return [whole(g) for _, g in groups]
     if ctype in SINGLE_GROUP:
         if not invariance(ctype, opts)[1]:
